@@ -189,11 +189,30 @@ def cases(draw: Any) -> Dict[str, Any]:
 
 def shards(tier: str) -> List[Dict[str, Any]]:
     q = tier == 'quick'
-    return [{'name': 'scenarios-%02d' % i, 'examples': 100 if q else 2000} for i in range(16)]
+    out = [{'name': 'scenarios-%02d' % i, 'examples': 100 if q else 2000} for i in range(16)]
+    if not q:
+        for mode in MODES:
+            out.append({'name': 'live-%s' % mode, 'kind': 'live', 'mode': mode})
+    return out
 
 
 def run_shard(spec: Dict[str, Any], seed: int, acc: Any) -> None:
     from vf.props import c07
+    if spec.get('kind') == 'live':
+        try:
+            for (a, wk) in ((1, 1), (2, 2), (4, 4), (1, 4), (4, 1)):
+                for rnd in range(3):
+                    vs, info = live_round(spec['mode'], a, wk, 12, seed + rnd)
+                    case = {'live': True, 'mode': spec['mode'], 'acceptors': a, 'workers': wk, 'round': rnd}
+                    acc.case(case, True, labels=('live', 'mode:' + spec['mode'], 'acceptors:%d' % a, 'workers:%d' % wk))
+                    acc.count(info['conversations'])
+                    acc.dontcare += info['inconclusive']
+                    for (cl, ft, ob, ex) in vs:
+                        acc.fail(case, cl, ft, ob, ex)
+        finally:
+            c07.cleanup_static()
+            _F.clear()
+        return
     try:
         def chk(c: Dict[str, Any]) -> List[Any]:
             vs, info = evaluate(c)
@@ -207,3 +226,216 @@ def run_shard(spec: Dict[str, Any], seed: int, acc: Any) -> None:
     finally:
         c07.cleanup_static()
         _F.clear()
+
+
+# ---------------------------------------------------------------------------------------------------------------
+# Tier 2 (thorough): real Proxy() processes in each mode x {1,2,4} acceptors/workers, concurrent clients against a
+# shared loopback origin.  Schedules are not owned, so the oracle is order-insensitive: per client connection the
+# concatenated bytes received must equal what the deterministic local-mode reference run (harness K, tier 1 driver)
+# produced for the same conversation.  A deadline hit is inconclusive; a divergence is re-run twice sequentially and
+# only reported if it persists.
+
+def _live_conversation(kind: str, i: int, oport: int) -> Dict[str, Any]:
+    auth = b'127.0.0.1:%d' % oport
+    body = stream(2000 + 37 * i, i)
+    if kind == 'forward':
+        reqs = [b'POST http://%s/live/%d/%d HTTP/1.1\r\nHost: %s\r\nContent-Length: %d\r\n\r\n' % (auth, i, j, auth, len(body)) + body for j in range(1 + i % 3)]
+        return {'requests': reqs, 'tunnel': None}
+    if kind == 'tunnel':
+        return {'requests': [b'CONNECT %s HTTP/1.1\r\nHost: %s\r\n\r\n' % (auth, auth)], 'tunnel': b'GET /tunnelled/%d HTTP/1.1\r\nHost: x\r\nContent-Length: %d\r\n\r\n' % (i, len(body)) + body}
+    if kind == 'web':
+        return {'requests': [b'GET /gen/%d/%d/3 HTTP/1.1\r\nHost: localhost\r\n\r\n' % (3000 + i, i)], 'tunnel': None}
+    if kind == 'notfound':
+        return {'requests': [b'GET /nothing-%d HTTP/1.1\r\nHost: localhost\r\n\r\n' % i], 'tunnel': None}
+    raise ValueError(kind)
+
+
+def _live_origin() -> Any:
+    import socket
+    import threading
+
+    class O(threading.Thread):
+        def __init__(self) -> None:
+            super().__init__(daemon=True)
+            self.ls = socket.socket(socket.AF_INET, socket.SOCK_STREAM)
+            self.ls.setsockopt(socket.SOL_SOCKET, socket.SO_REUSEADDR, 1)
+            self.ls.bind(('127.0.0.1', 0))
+            self.ls.listen(128)
+            self.port = self.ls.getsockname()[1]
+            self.stop = False
+
+        def run(self) -> None:
+            self.ls.settimeout(0.2)
+            while not self.stop:
+                try:
+                    s, _ = self.ls.accept()
+                except socket.timeout:
+                    continue
+                except OSError:
+                    return
+                threading.Thread(target=self.serve, args=(s,), daemon=True).start()
+
+        def serve(self, s: Any) -> None:
+            from vf.refs import http_ref as H
+            s.settimeout(20)
+            buf = b''
+            n_ = 0
+            try:
+                while True:
+                    chunk = s.recv(65536)
+                    if not chunk:
+                        break
+                    buf += chunk
+                    while True:
+                        try:
+                            ln = H.message_length(buf)
+                        except Exception:
+                            ln = None
+                        if ln is None:
+                            break
+                        raw, buf = buf[:ln], buf[ln:]
+                        n_ += 1
+                        s.sendall(tag_response('live-origin', n_, raw))
+            except OSError:
+                pass
+            finally:
+                try:
+                    s.close()
+                except OSError:
+                    pass
+    o = O()
+    o.start()
+    return o
+
+
+def _live_client(pport: int, conv: Dict[str, Any], deadline: float) -> Tuple[bytes, str]:
+    import socket
+    import time as _t
+    from vf.refs import http_ref as H
+    s = socket.socket(socket.AF_INET, socket.SOCK_STREAM)
+    s.settimeout(5)
+    got = b''
+    try:
+        s.connect(('127.0.0.1', pport))
+        for r in conv['requests']:
+            s.sendall(r)
+            off = len(got)
+            while _t.time() < deadline:
+                try:
+                    ch = s.recv(65536)
+                except socket.timeout:
+                    continue
+                if not ch:
+                    return got, 'eof'
+                got += ch
+                if conv['tunnel'] is not None and b'\r\n\r\n' in got:
+                    break
+                try:
+                    if conv['tunnel'] is None and H.message_length(got[off:]) is not None:
+                        break
+                except Exception:
+                    pass
+            else:
+                return got, 'timeout'
+        if conv['tunnel'] is not None:
+            s.sendall(conv['tunnel'])
+            off = len(got)
+            while _t.time() < deadline:
+                try:
+                    ch = s.recv(65536)
+                except socket.timeout:
+                    continue
+                if not ch:
+                    return got, 'eof'
+                got += ch
+                try:
+                    if H.message_length(got[off:]) is not None:
+                        break
+                except Exception:
+                    pass
+            else:
+                return got, 'timeout'
+        return got, 'ok'
+    except OSError as e:
+        return got, 'error:%s' % type(e).__name__
+    finally:
+        s.close()
+
+
+def _reference(kind: str, conv: Dict[str, Any]) -> bytes:
+    """The same conversation through the deterministic local-mode driver (tier 1 machinery)."""
+    w = K.World(flags_for('local'), max_iters=60000, settle=6)
+    client = c05.make_client('client', conv)
+    if conv['tunnel'] is not None:
+        client.script = [['send', len(conv['requests'][0])], ['await_ack', False], ['send', len(conv['tunnel'])]]
+    w.add_client(client)
+
+    def fac(world: K.World, addr: Tuple[str, int], idx: int) -> Tuple[K.Peer, Optional[Dict[str, Any]]]:
+        o = ReactiveOrigin('origin%d' % idx, responder=lambda o_, raw, n: tag_response('live-origin', n, raw))
+        world.order.append(o.name)
+        return o, None
+    w.origin_factory = fac
+    w.order = ['client']
+    w.run_local()
+    got = bytes(client.inbuf)
+    w.teardown()
+    return got
+
+
+def live_round(mode: str, acceptors: int, workers: int, nclients: int, seed: int) -> Tuple[List[Any], Dict[str, Any]]:
+    import time as _t
+    import threading
+    import multiprocessing
+    from proxy import Proxy
+    from vf.props import c04, c07
+    multiprocessing.current_process()._config['daemon'] = False     # type: ignore[attr-defined]
+    origin = _live_origin()
+    kinds = ['forward', 'tunnel', 'web', 'notfound']
+    convs = [(kinds[(i + seed) % len(kinds)], _live_conversation(kinds[(i + seed) % len(kinds)], i, origin.port)) for i in range(nclients)]
+    refs = [_reference(k_, cv) for k_, cv in convs]
+    argv = {'local': ['--threadless'], 'remote': ['--threadless', '--local-executor', '0'], 'threaded': ['--threaded']}[mode]
+    argv += ['--hostname', '127.0.0.1', '--port', '0', '--num-acceptors', str(acceptors), '--num-workers', str(workers),
+             '--enable-web-server', '--enable-static-server', '--static-server-dir', c07.static_dir(), '--enable-reverse-proxy']
+    out: List[Any] = []
+    info = {'inconclusive': 0, 'conversations': nclients}
+    feat = {'mode': mode, 'acceptors': acceptors, 'workers': workers}
+    p = Proxy(argv, plugins=[c07.route_plugin(), c04._reverse_plugin()])
+    import logging
+    unp = K.unpatched()
+    unp.__enter__()
+    try:
+        p.setup()
+        logging.disable(logging.CRITICAL)
+        results: List[Any] = [None] * nclients
+        deadline = _t.time() + 30
+
+        def run(i: int) -> None:
+            results[i] = _live_client(p.flags.port, convs[i][1], deadline)
+        ths = [threading.Thread(target=run, args=(i,), daemon=True) for i in range(nclients)]
+        for t in ths:
+            t.start()
+        for t in ths:
+            t.join(40)
+        for i, res in enumerate(results):
+            if res is None or res[1] == 'timeout':
+                info['inconclusive'] += 1
+                continue
+            got, st_ = res
+            if got != refs[i]:
+                # re-run this conversation alone, twice, sequentially: only a persistent divergence counts
+                again = [_live_client(p.flags.port, convs[i][1], _t.time() + 30) for _ in range(2)]
+                if all(a[0] != refs[i] and a[1] != 'timeout' for a in again):
+                    out.append(('live-mode-diverges-from-reference', dict(feat, kind=convs[i][0]),
+                                {'len': len(got), 'status': st_, 'tail': got[-60:]}, {'len': len(refs[i]), 'tail': refs[i][-60:]}))
+    finally:
+        try:
+            p.shutdown()
+        except BaseException as e:
+            out.append(('shutdown-raised', dict(feat, exc=type(e).__name__), repr(e), None))
+        unp.__exit__()
+        origin.stop = True
+        try:
+            origin.ls.close()
+        except OSError:
+            pass
+    return out, info
